@@ -371,7 +371,7 @@ def run(ctx):
             if cap and len(hs) > cap:
                 hs = rnd.sample(hs, cap)
             else:
-                ctx.cov["edges_replayed_on_impl"] += ne
+                ctx.add("edges_replayed_on_impl", ne)
             for k, h in enumerate(hs):
                 emit(sc, h, "%s-%d" % (name, k))
     trace = os.path.join(ctx.scratch, "trace.ndjson")
